@@ -6,6 +6,7 @@
 //!   (Vec <variant> [id ...] <extra-capacity> <offset> <fail>)
 //!   (Box <variant> <id> <offset> <fail>)
 //!   <variant> ::= Same | Same4 | DiffSmall | DiffBig | DiffAlign | DiffAlignDown | Zst | Fold
+//!   | PlainT | PlainU   (identical layout, exactly one side has drop glue: plain Copy data -> drop-logging, and converse)
 //!   (DiffAlign: same size, align(T) < align(U); DiffAlignDown: same size, align(T) > align(U))
 //!   (Fold: the functions are reached through the real `TypeFoldable::try_fold_with` impls of `Vec<T>` /
 //!   `Box<T>` in boring_impls.rs, with an element type whose fold calls back into a scripted folder)
@@ -221,6 +222,24 @@ elem!(U16A4, K_DROP_U, { id: u32, tag: u32, pad: [u32; 2] },
 // 32 bytes, align 8
 elem!(U32B, K_DROP_U, { id: u64, tag: u64, pad: [u64; 2] },
       |id| U32B { id, tag: TAG_U as u64, pad: [0; 2] }, |s| if s.tag == TAG_U as u64 { Some(s.id) } else { None });
+// plain data without drop glue, layout of T16 / U16 (16 bytes, align 8): nothing can be observed of
+// their "drops"; the tag is still checked where the harness reads them (mapper argument, result)
+#[derive(Clone, Copy)]
+#[repr(C)]
+struct PT16 { id: u64, tag: u64 }
+impl Elem for PT16 {
+    const DROP_KIND: u8 = K_DROP_T;
+    fn make(id: u64) -> Self { PT16 { id, tag: TAG_T as u64 } }
+    fn read(&self) -> Option<u64> { if self.tag == TAG_T as u64 { Some(self.id) } else { None } }
+}
+#[derive(Clone, Copy)]
+#[repr(C)]
+struct PU16 { id: u64, tag: u64 }
+impl Elem for PU16 {
+    const DROP_KIND: u8 = K_DROP_U;
+    fn make(id: u64) -> Self { PU16 { id, tag: TAG_U as u64 } }
+    fn read(&self) -> Option<u64> { if self.tag == TAG_U as u64 { Some(self.id) } else { None } }
+}
 // zero-sized
 elem!(TZ, K_DROP_T, {}, |_| TZ {}, |_| Some(0));
 elem!(UZ, K_DROP_U, {}, |_| UZ {}, |_| Some(0));
@@ -298,6 +317,11 @@ fn drive_vec<T: Elem, U: Elem>(ids: &[u64], extra: usize, off: u64, fail: Option
             }
             push(K_RETURN, 0);
             push(K_RESULT, res.len() as u64);
+            for e in res.iter() {
+                if e.read().is_none() {
+                    push(K_BAD, 6); // the result holds something that is not an initialised U
+                }
+            }
             drop(res);
         }
         Ok(Err(())) => push(K_RETURN, 1),
@@ -327,6 +351,9 @@ fn drive_box<T: Elem, U: Elem>(id: u64, off: u64, fail: Option<(usize, Mode)>) {
             }
             push(K_RETURN, 0);
             push(K_RESULT, 1);
+            if res.read().is_none() {
+                push(K_BAD, 6);
+            }
             drop(res);
         }
         Ok(Err(())) => push(K_RETURN, 1),
@@ -524,6 +551,8 @@ fn run_case(c: &Sexp) -> Result<Sexp, String> {
                 "DiffAlign" => drive_vec::<T8, U8A>(&ids, extra, off, fail),
                 "DiffAlignDown" => drive_vec::<T16, U16A4>(&ids, extra, off, fail),
                 "Zst" => drive_vec::<TZ, UZ>(&ids, extra, off, fail),
+                "PlainT" => drive_vec::<PT16, U16>(&ids, extra, off, fail),
+                "PlainU" => drive_vec::<T16, PU16>(&ids, extra, off, fail),
                 "Fold" => drive_vec_fold(&ids, extra, off, fail),
                 v => return Err(format!("unknown variant {}", v)),
             }
@@ -542,6 +571,8 @@ fn run_case(c: &Sexp) -> Result<Sexp, String> {
                 "DiffAlign" => drive_box::<T8, U8A>(id, off, fail),
                 "DiffAlignDown" => drive_box::<T16, U16A4>(id, off, fail),
                 "Zst" => drive_box::<TZ, UZ>(id, off, fail),
+                "PlainT" => drive_box::<PT16, U16>(id, off, fail),
+                "PlainU" => drive_box::<T16, PU16>(id, off, fail),
                 "Fold" => drive_box_fold(id, off, fail),
                 v => return Err(format!("unknown variant {}", v)),
             }
@@ -557,10 +588,13 @@ fn main() {
         "run" => vh::batch::run_batch(run_case),
         "layouts" => {
             // the layout facts the variants rely on (checked by checks/c27.py)
-            fn l<T>() -> Sexp {
-                Sexp::list(vec![Sexp::num(std::mem::size_of::<T>() as u64), Sexp::num(std::mem::align_of::<T>() as u64)])
+            fn l<T>(name: &str) -> Sexp {
+                Sexp::app("L", vec![Sexp::string(name), Sexp::num(std::mem::size_of::<T>() as u64),
+                                    Sexp::num(std::mem::align_of::<T>() as u64), Sexp::num(std::mem::needs_drop::<T>() as u64)])
             }
-            println!("{}", Sexp::app("Layouts", vec![l::<T16>(), l::<U16>(), l::<T8>(), l::<U8>(), l::<U8A>(), l::<U32B>(), l::<TZ>(), l::<UZ>(), l::<U16A4>()]));
+            println!("{}", Sexp::app("Layouts", vec![Sexp::list(vec![
+                l::<T16>("T16"), l::<U16>("U16"), l::<T8>("T8"), l::<U8>("U8"), l::<U8A>("U8A"), l::<U32B>("U32B"),
+                l::<TZ>("TZ"), l::<UZ>("UZ"), l::<U16A4>("U16A4"), l::<PT16>("PT16"), l::<PU16>("PU16"), l::<TF>("TF")])]));
         }
         _ => {
             eprintln!("usage: mem run|layouts");
